@@ -253,7 +253,7 @@ theorem step_sample_sim {cfg : Config} {s : St} {st : Last × List Acc} (h : Sim
     · simp only [hrep, if_false]
       have hok2 := (hs2.inv.get hp2).2
       obtain ⟨hthlt, hthbind⟩ := hok2.thrOf hth
-      obtain ⟨hinv3, hbuf3, htl3⟩ := sample_put_spec (t := t) { th := th.h, t := conv s2 t, tmono := t, cpu := period, stack := sampleStack s2.cfg km ip chain, gpid := pid, gtid := tid } hs2.inv (by rw [hpid2]; exact hp2) hth
+      obtain ⟨hinv3, hbuf3, htl3⟩ := sample_put_spec (t := t) { th := th.h, t := conv s2 t, tmono := t, cpu := period, stack := sampleStack s2.cfg km ip chain, tlabel := threadLabel th.name pid tid, gpid := pid, gtid := tid } hs2.inv (by rw [hpid2]; exact hp2) hth
       refine ⟨hs2.hcfg, hinv3, ?_, ?_, ?_⟩
       · intro u' hu'
         rcases List.mem_append.mp (hbuf3.mem_iff.mp hu') with hu' | hu'
